@@ -4,7 +4,7 @@ from .. import core, agg, httpw
 
 ID = "C01"
 MODULE = "DrandProofs.C01Http"   # imports DrandProofs.C01 (node model) and DrandProofs.C14Http (HTTP waiter invariant)
-DEPENDS = ["C18"]  # the base store answers as a sorted map: re-checked with this property (check, P5b)
+DEPENDS = ["C18", "C10"]  # base store = sorted map (C18); everything sync writes was verified against the pinned chain info (C10): re-checked with this property (check, P5b)
 THEOREMS = ["Drand.Beacon." + t for t in [
     "c01_store_valid", "c01_write_paths_verified", "c01_preimage_binds", "c01_digest_binds", "c01_unchained_ignores_prev",
     "c01_served_from_store", "c01_served_valid", "c01_randomness", "c01_randomness_exits", "c01_exact_round",
